@@ -495,8 +495,12 @@ func (conn *Conn) send(ctx context.Context) {
 				return
 			}
 		case <-ctx.Done():
-			// control channel closed, bail out
+			// control channel closed, trigger Close() to clean things up
+			// properly and bail out. runLoop does the same, but it may be
+			// stuck in a handler that is blocked writing to conn.out,
+			// which nothing drains once we are gone.
 			conn.wg.Done()
+			conn.Close()
 			return
 		}
 	}
